@@ -531,3 +531,17 @@ class Real(PackedOps):
                 sp = sp.reshape((-1, hdr['WWIDTH'])).astype(np.uint8)
         line = "fitsraw f=%s cov=%s sp=%s" % (kv.get('f', 'f'), ','.join(str(int(v)) for v in cov), enc_cells(sp))
         return 'raw', line
+
+    def op_dor(self, pos, kv):
+        if kv.get('f', 'f') not in self.files:
+            raise NoMap(kv.get('f', 'f'))
+        kw = {}
+        if 'pixels' in kv:
+            kw['pixels'] = [int(t) for t in split_list(kv['pixels'])]
+        if 'wf' in kv:
+            if kv['wf'] not in self.files:
+                raise NoMap(kv['wf'])
+            kw['weightfile'] = self.files[kv['wf']]
+        self.pool[kv['r']] = HealSparseMap.read(self.files[kv.get('f', 'f')], degrade_nside=2 ** int(kv['ord']),
+                                                reduction=kv.get('red', 'mean'), **kw)
+        return 'ok'
